@@ -3,12 +3,18 @@
     proofs/C14_rds.v (remove_dot_segments, merge), proofs/C14_resolve.v (normalisation, assembly),
     proofs/C14_script.v (the script language only performs the operations of [flow_step]).
     The independent transcription of RFC 3986 5.2 is proofs/C14_spec.v.
+    Additions after review 3 (end of file): proofs/C14_more.v (relative base, no-panic without the
+    scheme conjunct, Script-reached error branches), proofs/C14_grammar.v (the grammar of Locations,
+    independent of Url.v), proofs/C14_ingrammar.v, C14_origin.v, C14_scope.v (the theorems about
+    [resolve] restated with that domain of validity), proofs/C14_ready.v (every Script-reached
+    Redirect flow has a status: no panic on any history).
 
     Level note: this is a proof about the model.  [Url.resolve] models the url crate on the
     property's grammar only (see Url.v). *)
 From Hoot Require Import Base Chunk Body Httparse Parser Url Request Call Flow Script.
 From Hoot.proofs Require Import BytesLemmas C17_proofs C02_proofs C02_analysis C14_proofs.
 From Hoot.proofs Require Import C14_spec C14_rfc C14_rds C14_resolve C14_script.
+From Hoot.proofs Require Import C14_more C14_grammar C14_ingrammar C14_origin C14_scope C14_ready.
 Open Scope N_scope.
 
 (* ------------------------------------------------------------------ vocabulary *)
@@ -23,7 +29,10 @@ Theorem c14_cur_uri_def : forall f,
 Proof. reflexivity. Qed.
 
 (** [flow_step f f']: one operation of the flow API between Prepare and Redirect, with any
-    arguments, turns [f] into [f'] (in any state: the type-state discipline is over-approximated). *)
+    arguments, turns [f] into [f'] (in any state: the type-state discipline is over-approximated).
+    A failed operation leaves the caller with the flow it had, except a failed body read: the Rust
+    decoder is mutated in place, so the flow afterwards is [recv_body_after_err f input cap]
+    (Flow.v) -- the disjunct with [Err e] below. *)
 Theorem c14_flow_step_def : forall f f',
   flow_step f f' <->
   (exists k v, prepare_header f k v = Ok f') \/
@@ -38,6 +47,7 @@ Theorem c14_flow_step_def : forall f f',
   (exists input used got, recv_try_response f input = Ok (f', used, got)) \/
   (exists t, recv_response_proceed f = Ok (Some (t, f'))) \/
   (exists input cap i o, recv_body_read f input cap = Ok (f', i, o)) \/
+  (exists input cap e, recv_body_read f input cap = Err e /\ f' = recv_body_after_err f input cap) \/
   (exists b, recv_body_stop f b = Ok f') \/
   (exists t, recv_body_proceed f = Ok (Some (t, f'))).
 Proof. exact flow_step_def. Qed.
@@ -137,6 +147,9 @@ Definition KnownClass (f : inner) : Prop :=
     method SP path-and-query of the resolved URI SP version CRLF, and -- outside the known class --
     its effective headers contain exactly one Host field, naming the host of the resolved URI.
     (The bytes on the wire are [prelude_line] followed by the effective headers: C02.) *)
+(** SCOPE: for every byte string this is a statement about the model; as a statement about the
+    code it is claimed for Locations with [loc_in_grammar] only -- [c14_wire_in_grammar], which also
+    shows that the target then contains no SP / control byte / backslash. *)
 Theorem c14_wire : forall f p f' next g c',
   as_new_flow f p = Ok (f', Some next) -> prepared next g -> analyze_request (i_call g) = Ok c' ->
   let target := cur_uri next in
@@ -170,7 +183,11 @@ Theorem c14_errors : forall f p,
 Proof. exact redirect_errors. Qed.
 
 (** The state of a flow that reaches Redirect for the first time: it has a status (see
-    [c14_redirect_has_status]), its request has not been taken, and its URI is absolute. *)
+    [c14_redirect_has_status]), its request has not been taken, and its URI is absolute.
+    The third conjunct holds at every hop >= 1 ([c14_target_absolute]); at hop 0 it restricts the
+    caller's request (an origin-form URI with an explicit Host field is accepted by C17).  It is
+    only used to give [c14_outcomes] its shape; [c14_no_panic], [c14_outcomes_all] and
+    [c14_relative_base_error] do without it. *)
 Theorem c14_redirect_ready_def : forall f,
   redirect_ready f <->
   i_status f <> None /\ am_req (c_req (i_call f)) <> None /\ u_scheme (cur_uri f) <> [].
@@ -183,6 +200,10 @@ Proof. exact redirect_has_status. Qed.
 
 (** In that state, for EVERY Location value (any byte string, or none): complete case analysis.
     An error produces no flow; a flow is produced only with the resolved URI. *)
+(** SCOPE: "EVERY Location value" = every byte string, for the MODEL.  The model's [resolve] is
+    claimed to describe the url crate on [loc_in_grammar] only (three counterexamples outside it:
+    [c14_outside_grammar]); the version with that hypothesis, with the origin of the target spelled
+    out and without the condition on the current URI, is [c14_outcomes_in_grammar]. *)
 Theorem c14_outcomes : forall f p,
   redirect_ready f ->
   (i_location f = None /\ as_new_flow f p = Err NoLocationHeader) \/
@@ -193,8 +214,14 @@ Theorem c14_outcomes : forall f p,
             exists f' next, as_new_flow f p = Ok (f', Some next) /\ cur_uri next = target))).
 Proof. exact as_new_flow_outcomes. Qed.
 
-Theorem c14_no_panic : forall f p site, redirect_ready f -> as_new_flow f p <> Panic site.
-Proof. intros f p site H. apply as_new_flow_no_panic. exact H. Qed.
+(** Never a panic in the Redirect state, whatever the Location and WHATEVER THE CURRENT URI: the
+    third conjunct of [redirect_ready] (absolute current URI) is not needed any more -- a
+    scheme-less URI (origin-form request) is answered with BadLocationHeader since the repair of
+    F19 ([c14_relative_base_error] below).  Both remaining conditions are necessary
+    ([c14_panic_cases]). *)
+Theorem c14_no_panic : forall f p site,
+  i_status f <> None -> am_req (c_req (i_call f)) <> None -> as_new_flow f p <> Panic site.
+Proof. intros f p site H1 H2. apply as_new_flow_no_panic_strong. split; assumption. Qed.
 
 (** The flow a redirect produces is itself ready for the next redirect as far as the URI is
     concerned: the resolved URI has a scheme, an authority and a path. *)
@@ -232,6 +259,9 @@ Proof. reflexivity. Qed.
     One reading had to be fixed in the transcription: appendix B's scheme group "[^:/?#]+" is
     accepted as a scheme only if it matches 3.1 (ALPHA *( ALPHA / DIGIT / "+" / "-" / "." ));
     otherwise the reference is read as a relative path ("1:x", "a b:c"), as the url crate does. *)
+(** SCOPE: an equation between two definitions in Coq, true for every byte string.  That either
+    side describes what the url crate does is claimed on [loc_in_grammar] only
+    ([c14_resolve_matches_rfc_in_grammar], [c14_outside_grammar]). *)
 Theorem c14_resolve_matches_rfc : forall base loc,
   base_path_ok (uri_path base) ->
   resolve base loc = option_map uri_of (rfc_resolve (components_of base) loc).
@@ -458,6 +488,373 @@ Proof.
   repeat split; try (vm_compute; reflexivity). vm_compute. discriminate.
 Qed.
 
+(* ================================================================== additions after review 3 *)
+
+(* ------------------------------------------------------------------ relative base (F19, repaired) *)
+
+(** A request in origin form ("GET /x" plus a Host field: no scheme, no authority in the URI) is
+    accepted by the analysis (C17).  When the response is a followed 3xx, the current URI cannot be
+    parsed as a URL.  This used to be an [expect] in [new_uri_from_location] (a panic reachable
+    from accepted input); code and model now report BadLocationHeader.
+
+    [redirect_state]: what is left of [redirect_ready] -- a status was recorded and the request has
+    not been taken; the URI may be anything. *)
+Theorem c14_redirect_state_def : forall f,
+  redirect_state f <-> i_status f <> None /\ am_req (c_req (i_call f)) <> None.
+Proof. reflexivity. Qed.
+
+Theorem c14_redirect_ready_split : forall f,
+  redirect_ready f <-> redirect_state f /\ u_scheme (cur_uri f) <> [].
+Proof. exact redirect_ready_split. Qed.
+
+(** Scheme-less current URI + any Location (text or not, resolvable or not): an error, no flow, no
+    panic -- with either policy.  (Without a Location: NoLocationHeader, as always.) *)
+Theorem c14_relative_base_error : forall f p,
+  i_status f <> None -> u_scheme (cur_uri f) = [] ->
+  as_new_flow f p = match i_location f with
+                    | None => Err NoLocationHeader
+                    | Some _ => Err BadLocationHeader
+                    end.
+Proof. exact relative_base_error. Qed.
+
+(** Reached by a history of Script operations (the harness replays it against the crate): the
+    origin-form request is accepted and written, the 302 is read, the flow is in Redirect with
+    status and request but NOT [redirect_ready]; every kind of Location is answered
+    BadLocationHeader, a missing one NoLocationHeader. *)
+Example c14_relative_base_script :
+  let f := redirect_flow_of rel_req [s2b "http://b.test/y"] in
+  call_invalid (i_call (start_flow rel_req)) = false /\
+  head_obs rel_req = [w "ok"; TN 33; TH (s2b "GET /x HTTP/1.1" ++ CRLF ++ s2b "host: a.test" ++ CRLF ++ CRLF)] /\
+  s_obj (run_ops s_init (to_redirect rel_req [s2b "http://b.test/y"])) = ObFlow TRedirect f /\
+  redirect_state f /\ u_scheme (cur_uri f) = [] /\ ~ redirect_ready f /\
+  i_location f = Some (s2b "http://b.test/y") /\
+  as_new_flow f Never = Err BadLocationHeader /\ as_new_flow f SameHost = Err BadLocationHeader /\
+  redirect_obs rel_req [s2b "http://b.test/y"] Never = obs_err BadLocationHeader /\
+  redirect_obs rel_req [s2b "/y"] SameHost = obs_err BadLocationHeader /\
+  redirect_obs rel_req [s2b "../y?q#f"] Never = obs_err BadLocationHeader /\
+  redirect_obs rel_req [s2b ""] Never = obs_err BadLocationHeader /\
+  redirect_obs rel_req [] Never = obs_err NoLocationHeader.
+Proof. exact relative_base_script. Qed.
+
+Theorem c14_script_vocabulary_def : forall r locs p,
+  to_redirect r locs =
+    (let rsp := redirect_response (s2b "302") locs in
+     [ONew r; OProceed; OWriteHead 4096; OProceed; OSetStream rsp; OArrive (len rsp); OTryResponse; OProceed]) /\
+  redirect_flow_of r locs =
+    match s_obj (run_ops s_init (to_redirect r locs)) with ObFlow TRedirect f => f | _ => dummy_flow end /\
+  redirect_obs r locs p = snd (step (run_ops s_init (to_redirect r locs)) (OAsNewFlow p)) /\
+  head_obs r = snd (step (run_ops s_init [ONew r; OProceed]) (OWriteHead 4096)).
+Proof. intros. repeat split. Qed.
+
+(** The error clause of [c14_errors] without the scheme hypothesis. *)
+Theorem c14_errors_all : forall f p loc,
+  i_location f = Some loc -> i_status f <> None ->
+  u_scheme (cur_uri f) = [] \/ resolve (cur_uri f) loc = None ->
+  as_new_flow f p = Err BadLocationHeader.
+Proof.
+  intros f p loc Hl Hs [Hu|Hr]; [eapply relative_base_error_loc; eauto|].
+  destruct (u_scheme (cur_uri f)) eqn:Hu; [eapply relative_base_error_loc; eauto|].
+  eapply as_new_flow_unresolvable; eauto. rewrite Hu. discriminate.
+Qed.
+
+(** Complete case analysis in the Redirect state for EVERY Location value and EVERY current URI
+    (the version of [c14_outcomes] that does not assume an absolute current URI). *)
+Theorem c14_outcomes_all : forall f p,
+  redirect_state f ->
+  (i_location f = None /\ as_new_flow f p = Err NoLocationHeader) \/
+  (exists loc, i_location f = Some loc /\
+     ((is_text loc = false \/ u_scheme (cur_uri f) = [] \/ resolve (cur_uri f) loc = None) /\
+      as_new_flow f p = Err BadLocationHeader
+      \/ is_text loc = true /\ u_scheme (cur_uri f) <> [] /\
+         exists target, resolve (cur_uri f) loc = Some target /\
+           (as_new_flow f p = Ok (f, None) \/
+            exists f' next, as_new_flow f p = Ok (f', Some next) /\ cur_uri next = target))).
+Proof. exact as_new_flow_outcomes_all. Qed.
+
+(** The panics of [as_new_flow], exactly: called outside the Redirect state (no status), or a
+    second time on a redirect flow whose request was taken (F18; only for a flow with an absolute
+    URI, i.e. from hop 1 on -- at hop 0 the emptied request has no scheme and the call errs). *)
+Theorem c14_panic_cases : forall f p site,
+  as_new_flow f p = Panic site ->
+  (i_status f = None /\ site = "flow.rs: status.unwrap() in as_new_flow"%string) \/
+  (am_req (c_req (i_call f)) = None /\ u_scheme (cur_uri f) <> [] /\
+   site = "amended.rs: body.unwrap() in take_request"%string).
+Proof. exact as_new_flow_panic_cases. Qed.
+
+(** The error branches of [c14_errors] / [c14_outcomes] reached by the script with an absolute
+    request: empty authority, port above 65535, a non-text value (bytes >= 0x80), no Location;
+    and with two fields the last one is used ("//" then "z": followed). *)
+Example c14_error_branches :
+  let f1 := redirect_flow_of abs_req [s2b "//"] in
+  let f2 := redirect_flow_of abs_req [s2b "http://h:99999/"] in
+  let f3 := redirect_flow_of abs_req [s2b "/caf" ++ [195; 169]] in
+  let f4 := redirect_flow_of abs_req [] in
+  (redirect_ready f1 /\ i_location f1 = Some (s2b "//") /\ is_text (s2b "//") = true /\
+   resolve (cur_uri f1) (s2b "//") = None /\
+   redirect_obs abs_req [s2b "//"] Never = obs_err BadLocationHeader) /\
+  (redirect_ready f2 /\ i_location f2 = Some (s2b "http://h:99999/") /\
+   resolve (cur_uri f2) (s2b "http://h:99999/") = None /\
+   redirect_obs abs_req [s2b "http://h:99999/"] SameHost = obs_err BadLocationHeader) /\
+  (redirect_ready f3 /\ i_location f3 = Some (s2b "/caf" ++ [195; 169]) /\
+   is_text (s2b "/caf" ++ [195; 169]) = false /\
+   redirect_obs abs_req [s2b "/caf" ++ [195; 169]] Never = obs_err BadLocationHeader) /\
+  (redirect_ready f4 /\ i_location f4 = None /\
+   redirect_obs abs_req [] Never = obs_err NoLocationHeader) /\
+  redirect_obs abs_req [s2b "//"; s2b "z"] Never = [w "some"].
+Proof. exact error_branches_script. Qed.
+
+(* ------------------------------------------------------------------ domain of validity: the grammar *)
+
+(** [loc_in_grammar] (proofs/C14_grammar.v, written from the property text and the ABNF of
+    RFC 3986, independent of Url.v): the Location values for which the model's [resolve] is
+    claimed to describe the url crate.
+
+      loc       = ref [ "#" fragment ]
+      ref       = ("http" / "https") "://" authority path-abempty [ "?" query ]    ; any letter case
+                / "//" authority path-abempty [ "?" query ]
+                / [ path-absolute / path-noscheme ] [ "?" query ]                   ; also empty
+      authority = host [ ":" *DIGIT ],  host = 1*( ALPHA / DIGIT / "-" / "." )
+      path, query, fragment bytes: unreserved / sub-delims / ":" / "@" / "/" / "?" (query, fragment)
+                / "%" HEXDIG HEXDIG.   No SP, control byte, backslash, non-ASCII byte, lone "%".
+
+    OUTSIDE this grammar the theorems about [resolve] ([c14_resolve_matches_rfc], [c14_outcomes],
+    [c14_wire], [c14_chain], ...) are statements about the MODEL only.  Known differences between
+    model (RFC 3986) and crate (WHATWG URL), all outside the grammar ([c14_outside_grammar]):
+      - "\\evil.test/p": the crate reads "\" as "/" and goes to host evil.test; the model stays on
+        the same host with path "/x/\\evil.test/p";
+      - "/a b": the crate sends "/a%20b"; the model would put a space in the request line;
+      - "http:g": for the crate a same-origin relative reference; for the model unresolvable. *)
+Theorem c14_loc_in_grammar_def : forall loc,
+  loc_in_grammar loc =
+    g_chars (g_ref_part loc) &&
+    match g_fragment_part loc with Some f => g_chars f | None => true end &&
+    g_shape (g_ref_part loc).
+Proof. reflexivity. Qed.
+
+Theorem c14_grammar_parts_def : forall loc r a,
+  g_ref_part loc = fst (span (not_in [35]) loc) /\
+  g_fragment_part loc = match snd (span (not_in [35]) loc) with [] => None | _ :: f => Some f end /\
+  g_shape r =
+    (if is_prefix (s2b "http://") (lower r) then g_net_path (drop 7 r)
+     else if is_prefix (s2b "https://") (lower r) then g_net_path (drop 8 r)
+     else if is_prefix (s2b "//") r then g_net_path (drop 2 r)
+     else g_no_colon_in_first_segment r) /\
+  g_net_path r = g_authority (fst (span (not_in [47; 63]) r)) /\
+  g_no_colon_in_first_segment r = forallb (not_in [58]) (fst (span (not_in [47; 63]) r)) /\
+  g_authority a =
+    (let '(host, rest) := span (not_in [58]) a in
+     negb (is_nil host) && forallb g_host_char host &&
+     match rest with [] => true | _ :: port => forallb is_digit port end).
+Proof. intros. repeat split. Qed.
+
+Example c14_grammar_examples :
+  forallb loc_in_grammar
+    [s2b "HTTPS://B.test:443/p/q/r#frag"; s2b "http://b.test"; s2b "http://h:99999/"; s2b "http://h:/";
+     s2b "//c.test:81"; s2b "//c.test/a?b#c"; s2b "/p/q"; s2b "/a:b"; s2b "../x?y"; s2b "./a/../b";
+     s2b "x/y:z"; s2b "a%20b/c"; s2b "?q=1&r=/?"; s2b ""; s2b "#f"; s2b "/p;v=1,2/(x)*!$'+@"] = true /\
+  forallb (fun l => negb (loc_in_grammar l))
+    [[92; 92] ++ s2b "evil.test/p"; s2b "/a b"; s2b "http:g";
+     s2b "//"; s2b "http://"; s2b "http://user:pw@h/"; s2b "http://[::1]/"; s2b "a:b"; s2b "ftp://h/";
+     s2b "/x%2"; s2b "/x%zz"; s2b "/caf" ++ [195; 169]; s2b "/a" ++ [9] ++ s2b "b"; s2b "/a|b";
+     s2b "/a" ++ [34] ++ s2b "b"; s2b "/<a>"; s2b "http://h:8o/"; s2b "/a#b#c"; s2b "/a" ++ [13; 10]] = true /\
+  g_origin_of (s2b "HTTPS://B.test:443/p/q/r#frag") = GAbsolute (s2b "https") (s2b "B.test:443") /\
+  g_origin_of (s2b "//c.test:81") = GSchemeRelative (s2b "c.test:81") /\
+  g_origin_of (s2b "../x?y") = GSameOrigin /\ g_origin_of (s2b "") = GSameOrigin /\
+  g_origin_of (s2b "?q=1") = GSameOrigin /\ g_origin_of (s2b "/p/q#f") = GSameOrigin.
+Proof. exact grammar_examples. Qed.
+
+(** What the model does with the reviewer's three counterexamples (none is in the grammar, see the
+    second list above). *)
+Example c14_outside_grammar :
+  let base := {| u_scheme := s2b "http"; u_auth := s2b "a.test"; u_pq := s2b "/x/y" |} in
+  resolve base ([92; 92] ++ s2b "evil.test/p") =
+    Some {| u_scheme := s2b "http"; u_auth := s2b "a.test"; u_pq := s2b "/x/" ++ [92; 92] ++ s2b "evil.test/p" |} /\
+  resolve base (s2b "/a b") =
+    Some {| u_scheme := s2b "http"; u_auth := s2b "a.test"; u_pq := s2b "/a b" |} /\
+  resolve base (s2b "http:g") = None.
+Proof. exact outside_grammar_model_only. Qed.
+
+(** A Location of the grammar is text (the "non-textual" error cannot occur) and, up to its
+    fragment, consists of URI bytes: visible ASCII other than SP and the excluded delimiters. *)
+Theorem c14_in_grammar_text : forall loc,
+  loc_in_grammar loc = true ->
+  is_text loc = true /\
+  forall b, In b (until 35 loc) ->
+    33 <= b <= 126 /\ ~ In b [34; 35; 60; 62; 91; 92; 93; 94; 96; 123; 124; 125].
+Proof.
+  intros loc H. split; [apply in_grammar_text; exact H|].
+  intros b Hb. apply g_uri_byte_range. eapply in_grammar_ref_bytes; eauto.
+Qed.
+
+(** [c14_resolve_matches_rfc] with its scope: for Locations of the grammar, the model's resolution
+    -- claimed to be the crate's -- is RFC 3986 5.2 resolution plus normalisation. *)
+Theorem c14_resolve_matches_rfc_in_grammar : forall base loc,
+  loc_in_grammar loc = true -> base_path_ok (uri_path base) ->
+  resolve base loc = option_map uri_of (rfc_resolve (components_of base) loc).
+Proof. intros base loc _ Hb. apply resolve_matches_rfc. exact Hb. Qed.
+
+(** "Never a request to a wrong origin", on the grammar: scheme and authority of the target are
+    those the grammar class of the Location prescribes ([g_origin_of] reads them off the text:
+    what is written after "http(s)://" or "//" up to the next "/" or "?"; otherwise the base's),
+    up to lower-casing and default-port elision ([norm_auth], see [c14_norm_auth_def]). *)
+Theorem c14_origin_in_grammar : forall base loc t,
+  loc_in_grammar loc = true -> resolve base loc = Some t ->
+  match g_origin_of loc with
+  | GAbsolute s a => u_scheme t = s /\ norm_auth s a = Some (u_auth t)
+  | GSchemeRelative a =>
+      u_scheme t = lower (u_scheme base) /\ norm_auth (lower (u_scheme base)) a = Some (u_auth t)
+  | GSameOrigin =>
+      u_scheme t = lower (u_scheme base) /\
+      norm_auth (lower (u_scheme base)) (u_auth base) = Some (u_auth t)
+  end.
+Proof. exact resolve_origin_in_grammar. Qed.
+
+Theorem c14_g_origin_of_def : forall loc,
+  g_origin_of loc =
+    let r := g_ref_part loc in
+    if is_prefix (s2b "http://") (lower r) then GAbsolute (s2b "http") (fst (span (not_in [47; 63]) (drop 7 r)))
+    else if is_prefix (s2b "https://") (lower r) then GAbsolute (s2b "https") (fst (span (not_in [47; 63]) (drop 8 r)))
+    else if is_prefix (s2b "//") r then GSchemeRelative (fst (span (not_in [47; 63]) (drop 2 r)))
+    else GSameOrigin.
+Proof. reflexivity. Qed.
+
+(** "Unresolvable", on the grammar: only a port above 65535 in the Location's own authority (or,
+    for the classes that keep the base's authority, a base authority that does not normalise --
+    never the case for a URI that [resolve] produced). *)
+Theorem c14_unresolvable_in_grammar : forall base loc,
+  loc_in_grammar loc = true ->
+  (resolve base loc = None <->
+   match g_origin_of loc with
+   | GAbsolute s a => 65536 <= digits_value (g_port_of a)
+   | GSchemeRelative a => 65536 <= digits_value (g_port_of a)
+   | GSameOrigin => norm_auth (lower (u_scheme base)) (u_auth base) = None
+   end).
+Proof. exact unresolvable_in_grammar. Qed.
+
+Theorem c14_g_port_of_def : forall a,
+  g_port_of a = match snd (span (not_in [58]) a) with [] => [] | _ :: p => p end.
+Proof. reflexivity. Qed.
+
+(** [c14_outcomes] with its scope, for every current URI: for a Location of the grammar the only
+    errors are a scheme-less current URI or an unresolvable target; a flow is produced only for the
+    resolved URI, and that URI has the origin the grammar class prescribes. *)
+Theorem c14_outcomes_in_grammar : forall f p loc,
+  redirect_state f -> i_location f = Some loc -> loc_in_grammar loc = true ->
+  ((u_scheme (cur_uri f) = [] \/ resolve (cur_uri f) loc = None) /\
+   as_new_flow f p = Err BadLocationHeader)
+  \/
+  (u_scheme (cur_uri f) <> [] /\
+   exists target, resolve (cur_uri f) loc = Some target /\
+     match g_origin_of loc with
+     | GAbsolute s a => u_scheme target = s /\ norm_auth s a = Some (u_auth target)
+     | GSchemeRelative a =>
+         u_scheme target = lower (u_scheme (cur_uri f)) /\
+         norm_auth (lower (u_scheme (cur_uri f))) a = Some (u_auth target)
+     | GSameOrigin =>
+         u_scheme target = lower (u_scheme (cur_uri f)) /\
+         norm_auth (lower (u_scheme (cur_uri f))) (u_auth (cur_uri f)) = Some (u_auth target)
+     end /\
+     (as_new_flow f p = Ok (f, None) \/
+      exists f' next, as_new_flow f p = Ok (f', Some next) /\ cur_uri next = target)).
+Proof. exact as_new_flow_outcomes_in_grammar. Qed.
+
+(** Well-formed URIs: path-and-query of URI bytes, authority of host bytes and ":". *)
+Theorem c14_wellformed_def : forall u,
+  (pq_wellformed u <-> forall b, In b (u_pq u) -> g_uri_byte b = true) /\
+  (auth_wellformed u <-> forall b, In b (u_auth u) -> g_auth_byte b = true) /\
+  (forall b, g_uri_byte b = (g_plain b || (b =? 37))) /\
+  (forall b, g_auth_byte b = (g_host_char b || (b =? 58))).
+Proof. intros u. repeat split; auto. Qed.
+
+(** Resolving a Location of the grammar against a well-formed URI gives a well-formed URI: the
+    request target contains no SP, no control byte, no backslash, no non-ASCII byte -- so the
+    request line of the next hop is a well-formed line.  (Both conditions are closed under
+    [resolve], [c14_chain_wellformed]: they only constrain the caller's original URI.) *)
+Theorem c14_wire_wellformed : forall base loc t,
+  loc_in_grammar loc = true -> resolve base loc = Some t ->
+  (pq_wellformed base -> pq_wellformed t /\
+     forall b, In b (u_pq t) -> 33 <= b <= 126 /\ b <> 32 /\ b <> 9 /\ b <> 13 /\ b <> 10 /\ b <> 92 /\ b <> 35) /\
+  (auth_wellformed base -> auth_wellformed t).
+Proof.
+  intros base loc t Hg Hr. split.
+  - intros Hb. pose proof (resolve_wellformed _ _ _ Hg Hb Hr) as W. split; [exact W|].
+    intros b Hin. eapply pq_wellformed_no_sp_ctl; eauto.
+  - intros Hb. eapply resolve_auth_wellformed; eauto.
+Qed.
+
+(** [c14_wire] with its scope: the next head for a Location of the grammar. *)
+Theorem c14_wire_in_grammar : forall f p f' next g c' loc,
+  as_new_flow f p = Ok (f', Some next) -> i_location f = Some loc -> loc_in_grammar loc = true ->
+  pq_wellformed (cur_uri f) -> auth_wellformed (cur_uri f) ->
+  prepared next g -> analyze_request (i_call g) = Ok c' ->
+  let target := cur_uri next in
+  prelude_line (c_req c') =
+    method_name (am_method (c_req (i_call next))) ++ [32] ++ u_pq target ++ [32] ++
+    version_name (am_version (c_req (i_call f))) ++ CRLF /\
+  u_pq target <> [] /\
+  (forall b, In b (u_pq target) ->
+     33 <= b <= 126 /\ ~ In b [34; 35; 60; 62; 91; 92; 93; 94; 96; 123; 124; 125]) /\
+  pq_wellformed target /\ auth_wellformed target /\
+  (~ KnownClass f ->
+   get_all (am_headers (c_req c')) (s2b "host") = [uri_host target] /\
+   forall b, In b (uri_host target) -> g_host_char b = true).
+Proof.
+  intros f p f' next g c' loc H Hl Hg Hpq Hau Hp Ha. cbv zeta.
+  destruct (next_wire_in_grammar _ _ _ _ _ _ _ H Hl Hg Hpq Hau Hp Ha) as (A & B & C & D & E & F).
+  repeat (split; [assumption|]). intros Hk. apply F.
+  unfold KnownClass in Hk. destruct (get_all _ _); [reflexivity|exfalso; apply Hk; discriminate].
+Qed.
+
+Theorem c14_chain_wellformed : forall f locs fin,
+  redirect_chain f locs fin -> Forall (fun l => loc_in_grammar l = true) locs ->
+  (pq_wellformed (cur_uri f) -> pq_wellformed (cur_uri fin)) /\
+  (auth_wellformed (cur_uri f) -> auth_wellformed (cur_uri fin)).
+Proof.
+  intros f locs fin H HF. split; intros Hb.
+  - eapply chain_wellformed; eauto.
+  - eapply chain_auth_wellformed; eauto.
+Qed.
+
+(** The hypotheses of the theorems of this part hold on a flow the script reaches, and on the
+    three-hop chain of [c14_nonvacuous]. *)
+Example c14_in_grammar_nonvacuous :
+  (let loc := s2b "../p/./q?k=v#frag" in
+   let f := redirect_flow_of abs_req [s2b "/ignored"; loc] in
+   redirect_state f /\ i_location f = Some loc /\ loc_in_grammar loc = true /\
+   pq_wellformed (cur_uri f) /\ auth_wellformed (cur_uri f) /\
+   g_origin_of loc = GSameOrigin /\
+   exists f' next, as_new_flow f Never = Ok (f', Some next) /\
+     cur_uri next = {| u_scheme := s2b "http"; u_auth := s2b "a.test"; u_pq := s2b "/p/q?k=v" |} /\
+     exists c', analyze_request (i_call next) = Ok c' /\
+       prelude_line (c_req c') = s2b "GET /p/q?k=v HTTP/1.1" ++ CRLF) /\
+  Forall (fun l => loc_in_grammar l = true) ex_locs /\
+  pq_wellformed (cur_uri ex_start) /\ auth_wellformed (cur_uri ex_start).
+Proof.
+  split; [exact in_grammar_script|].
+  split; [repeat constructor|].
+  split; [apply pq_wellformed_b|apply auth_wellformed_b]; vm_compute; reflexivity.
+Qed.
+
+(* ------------------------------------------------------------------ the Redirect state on histories *)
+
+(** For EVERY history of Script operations (any requests -- absolute or origin form --, any
+    responses, any interleaving): a flow held in the Redirect state has a status; so unless its
+    request was already taken by an earlier [as_new_flow] (F18) it satisfies [redirect_state], and
+    following the redirect never panics.  (This instantiates the hypotheses of [c14_no_panic] /
+    [c14_outcomes_all] for all reachable flows, not only for the examples.) *)
+Theorem c14_script_redirect_state : forall ops f,
+  s_obj (run_ops s_init ops) = ObFlow TRedirect f ->
+  i_status f <> None /\ (am_req (c_req (i_call f)) <> None -> redirect_state f).
+Proof.
+  intros ops f H. split; [eapply script_redirect_has_status; eauto|].
+  intros Hq. eapply script_redirect_state; eauto.
+Qed.
+
+Theorem c14_script_no_panic : forall ops f p site,
+  s_obj (run_ops s_init ops) = ObFlow TRedirect f -> am_req (c_req (i_call f)) <> None ->
+  as_new_flow f p <> Panic site.
+Proof. exact script_no_panic. Qed.
+
 Print Assumptions c14_cur_uri_def.
 Print Assumptions c14_flow_step_def.
 Print Assumptions c14_flow_steps_def.
@@ -502,3 +899,30 @@ Print Assumptions c14_rfc_nonvacuous.
 Print Assumptions c14_nonvacuous.
 Print Assumptions c14_not_original.
 Print Assumptions c14_known_refuted.
+Print Assumptions c14_redirect_state_def.
+Print Assumptions c14_redirect_ready_split.
+Print Assumptions c14_relative_base_error.
+Print Assumptions c14_relative_base_script.
+Print Assumptions c14_script_vocabulary_def.
+Print Assumptions c14_errors_all.
+Print Assumptions c14_outcomes_all.
+Print Assumptions c14_panic_cases.
+Print Assumptions c14_error_branches.
+Print Assumptions c14_loc_in_grammar_def.
+Print Assumptions c14_grammar_parts_def.
+Print Assumptions c14_grammar_examples.
+Print Assumptions c14_outside_grammar.
+Print Assumptions c14_in_grammar_text.
+Print Assumptions c14_resolve_matches_rfc_in_grammar.
+Print Assumptions c14_origin_in_grammar.
+Print Assumptions c14_g_origin_of_def.
+Print Assumptions c14_unresolvable_in_grammar.
+Print Assumptions c14_g_port_of_def.
+Print Assumptions c14_outcomes_in_grammar.
+Print Assumptions c14_wellformed_def.
+Print Assumptions c14_wire_wellformed.
+Print Assumptions c14_wire_in_grammar.
+Print Assumptions c14_chain_wellformed.
+Print Assumptions c14_in_grammar_nonvacuous.
+Print Assumptions c14_script_redirect_state.
+Print Assumptions c14_script_no_panic.
